@@ -883,9 +883,9 @@ def gen_cases(ctx):
         ("resp", [ok, b"\r\n\r\n", ok], [""], "blank status line"),
         ("resp", [ok, b"HTTP/1.1 200 OK\r\nnocolon\r\n\r\n"], [], "header line without ': '"),
         ("resp", [b"HTTP/1.1 200 OK\r\nX: \xff\xfe\r\n\r\n", ok], [], "header block is not UTF-8"),
-        ("resp", [b"HTTP/1.1 200 OK\r\nContent-Length: +2\r\n\r\nab", ok], [], "Content-Length '+2' (outside the modelled domain)"),
-        ("resp", [b"HTTP/1.1 200 OK\r\nContent-Length: 2 \r\n\r\nab", ok], [], "Content-Length '2 ' (outside the modelled domain)"),
-        ("resp", [b"HTTP/1.1 200 OK\r\nContent-Length: x\r\n\r\nab"], [], "Content-Length 'x' (outside the modelled domain)"),
+        ("resp", [b"HTTP/1.1 200 OK\r\nContent-Length: +2\r\n\r\nab", ok], [], "Content-Length '+2' (int() accepts a sign)"),
+        ("resp", [b"HTTP/1.1 200 OK\r\nContent-Length: 2 \r\n\r\nab", ok], [], "Content-Length '2 ' (int() strips whitespace)"),
+        ("resp", [b"HTTP/1.1 200 OK\r\nContent-Length: x\r\n\r\nab"], [], "Content-Length 'x' (int() raises ValueError)"),
     ]
     for kind, raw, bf, what in bad:
         cases.append(http_case("http", "resp", [], valid=False, what=what, raw=raw, bad_first=bf))
@@ -896,8 +896,37 @@ def gen_cases(ctx):
                            raw=[okr, b"garbage\r\n\r\n", okr], bad_first=["garbage"]))
     cases.append(http_case("http", "resp", [], enc=True, valid=False, what="malformed status line on the encrypted control channel",
                            raw=[ok, b"garbage\r\n\r\n", ok], bad_first=["garbage"]))
+    # --- numeric-field sweep (outside valid streams): every decimal field of a valid message replaced
+    # by hostile literals.  Python's int() accepts sign, surrounding whitespace and single underscores;
+    # a negative Content-Length goes through Python's slice rules.  The model covers all of it.
+    body = b"abcdef"
+    cl_values = ["-%d" % k for k in range(0, len(body) + 9)] + [
+        "+3", " 3", "3 ", "1_0", "1e3", "0x10", "", str(2 ** 31), str(2 ** 64), "9" * 400,
+        "+0", "3_", "_3", "1__0", "\t3", "3\x0b", "3\n", "- 3", "+-3", "0_6", "006", " -2\t", "\u0663"]
+    other_values = ["-5", "+3", " 3", "3 ", "1_0", "1e3", "0x10", "", str(2 ** 64)]
+    if not T:
+        other_values = other_values[:5]
+    for conn, kind in (("http", "resp"), ("httpserver", "req"), ("event-loop", "req")):
+        first = "RTSP/1.0 200 OK" if kind == "resp" else "POST /command RTSP/1.0"
+        tail = http_message(first, [("CSeq", "9")], b"zz")
+        sweeps = [("Content-Length", v) for v in cl_values] + [("CSeq", v) for v in other_values]
+        if kind == "resp":
+            sweeps += [("status", v) for v in other_values]
+        if not T and conn != "http":
+            # quick tier: the full sweep on the client, a sample of the negative lengths on the others
+            keep = {"-0", "-1", "-2", "-%d" % len(body), "-%d" % (len(body) + 1), "-%d" % (len(body) + 8)}
+            sweeps = [(f, v) for f, v in sweeps if not (f == "Content-Length" and v.startswith("-") and v[1:].isdigit() and v not in keep)]
+        for field, v in sweeps:
+            f1 = first.replace("200", v) if field == "status" else first
+            hdrs = [("CSeq", v if field == "CSeq" else "1"), ("Content-Length", v if field == "Content-Length" else str(len(body)))]
+            msg = (f1 + "".join("\r\n%s: %s" % kv for kv in hdrs) + "\r\n\r\n").encode("utf-8") + body
+            c = http_case(conn, kind, [], valid=False, raw=[msg, tail],
+                          what="numeric field sweep: %s = %r, then a valid message" % (field, v if len(v) < 30 else v[:8] + "...(%d digits)" % len(v)))
+            c["sweep"] = True
+            c["unmodelled"] = any(ord(ch) > 127 for ch in v)
+            cases.append(c)
     for c in cases:
-        c["domain"] = not (c["conn"] in ("http", "httpserver", "event", "event-loop") and "outside the modelled domain" in c["what"])
+        c["domain"] = not c.get("unmodelled", False)
     return cases
 
 
@@ -1020,10 +1049,12 @@ def judge(ctx, case, coq):
         ctx.violation(key + k, "%s cut at %s" % (what, cuts), replay_of(case, cuts))
     ctx.count("%s%s:streams" % (conn, "+enc" if case["enc"] and conn in ("mrp", "companion", "http") else ""))
     ctx.count("%s:segmentations" % conn, nseg)
-    if not case["valid"]:
+    if case.get("sweep"):
+        ctx.count("%s:numeric-field-sweep-streams" % conn)
+    elif not case["valid"]:
         ctx.count("outside-valid-streams(correspondence only)")
     if not case["domain"]:
-        ctx.count("http:content-length-outside-model-domain(skipped in correspondence)")
+        ctx.count("http:non-ascii-content-length(unicode digits not modelled: skipped in correspondence)")
     wo = whole[0]
     ctx.case((conn, case["stream"].hex(), case["enc"]), nontrivial=bool(wo.get("msgs")),
              sample={"conn": conn, "what": case["what"], "stream_bytes": n, "segmentations": nseg,
@@ -1045,7 +1076,7 @@ def judge(ctx, case, coq):
         if g == "httpd":
             coq.add("httpd_agree", term, {"conn": conn, "what": case["what"], "agree": True})
     else:
-        for o, cutlists in list(groups.values())[:8]:
+        for o, cutlists in list(groups.values())[:(40 if ctx.thorough else 10)]:
             g, term = coq_case(case, o, declog_all, csegspec(cutlists[:60], False, False, False))
             coq.add(g, term, {"conn": conn, "what": case["what"], "stream": case["stream"].hex(), "impl": o, "cuts": cutlists[:5]})
     return nseg
@@ -1286,7 +1317,7 @@ def run(ctx):
                 "with every single cut, every pair of cuts (streams <= %d bytes), byte-at-a-time and random multi-cuts; "
                 "one evaluation = one segmentation run on the real class; distinct = distinct streams; non-trivial = at "
                 "least one message delivered" % (230 if ctx.thorough else 70))
-    coq = common.CoqCases(ctx, "From PV Require Import Common.Cases Common.Framing C02.Model.\nLocal Open Scope N_scope.", per_file=16)
+    coq = common.CoqCases(ctx, "From PV Require Import Common.Cases Common.Framing C02.Model.\nLocal Open Scope N_scope.", per_file=40)
     for g, (fn, typ) in GROUPS.items():
         coq.group(g, fn, typ)
     # corpus first
@@ -1318,7 +1349,8 @@ def run(ctx):
     ctx.assumptions += [
         "ChaCha20-Poly1305 decryption is a function of (counter, aad, data) - Section variable `dec`; the model's table is what the real cipher returned in this run",
         "protobuf parsing, UTF-8 validity of the header block, the two first-line regular expressions and the data-stream payload handler are functions of their argument (Section variables)",
-        "HTTP model domain: Content-Length values that are non-empty strings of ASCII digits; other values make the model fail with EContentLength and are skipped in the correspondence (counted in input_distribution)",
+        "HTTP Content-Length: the full int() grammar on ASCII (whitespace, sign, underscores; ValueError otherwise) and Python slice rules for a negative length are modelled and compared; only values with a non-ASCII byte (Unicode digits/spaces) are unmodelled - skipped in the correspondence and counted in input_distribution; int()'s 4300-digit limit is not modelled (no such input is generated)",
+        "the segmentation theorems for the three HTTP loops assume that the strict parser (which refuses a negative Content-Length) reads the unsplit stream without failure; with a negative length the code as written is segmentation dependent (theorem C02_http_negative_content_length_refuted) - not a valid stream; termination (C02_loops_terminate, C02_http_parse_consumes) holds for every integer length",
         "header keys are ASCII (str.lower of non-ASCII letters is not modelled); the body's text decoding is ignored",
         "the 64-bit/96-bit nonce counters do not overflow; EventChannel.send does not raise (transport connected)",
         "streams with a blank request line are not valid streams: EventChannel then delays the following complete request until the next read (lemma evchan_blank_line_depends_on_segmentation)",
